@@ -19,7 +19,7 @@ from vf.core import MachineryError, exc_record
 from vf.par import pmap
 
 META = {
-    "ready": False,
+    "ready": True,
     "category": "model_checking",
     "technique": "TLA+ model of the generator (EvalGen.tla) with the representation options as state, model-checked by TLC for all 8 option sets per program against one declarative value; every (program, option set) printed by TLC replayed against generator.generate() + Model.simplify() and compared with the default option set (oracle mode + differential)",
     "text": "For every program with a for-loop or a user-function call from the C11 families (plus programs with attributes and with delay()), TLC explores the 8 combinations of (unroll_loops, inline_functions, expand_mx): the lowered form is rewritten as the options prescribe (loop body instantiated per iteration or mapped; function substituted or called) and must keep the declarative residual at 4 exact points. The real back end is run under the same 8 option sets: variable lists (names, order, types, attributes), outputs, delay states and dae/initial residual, variable-metadata and delay-argument functions at those points and at seeded random points must be identical to the default option set.",
